@@ -371,6 +371,15 @@ def run(ctx):
             r3.check(out[0] == "return", "entities.known_columns", "dataset/entity_id/update_if/label columns are all accepted", ep.loc())
     except AnalysisError:
         raise
+    # a row that does not name the entity list at all (no list_name / dataset cell)
+    for desc, row0 in (("label only", {"label": "L"}), ("entity_id and update_if only", {"entity_id": "${e}", "update_if": "true()"}), ("empty dataset cell", {"dataset": "", "label": "L"})):
+        it.reset([])
+        try:
+            it.call_function(ep, [[dict(row0)]], {}, None, ep.node)
+            got0 = "accepted"
+        except Raised as r:
+            got0 = "rejected" if "PyXFormError" in r.mro else f"raises {r.exc_name}"
+        r3.check(got0 == "rejected", f"entities.no_dataset[{desc}]", "an entities row without a list name is rejected with PyXFormError", ep.loc(), why_fail=got0)
     # two rows
     it.reset([])
     try:
